@@ -27,6 +27,7 @@ RULES = {
     "R-C03-b": "per region role, every fill branch of the array cube equals the index cube's cell reducer; every index-cube corner is the all-rows instance of its cell value",
     "R-C03-c": "the missing-cell predicate table is identical for ffunc_X and xfunc_X",
     "R-C03-d": "the value that becomes xcube.interacting_shape is a Python int at the sink (not a NumPy scalar of the dimension's dtype)",
+    "R-C03-f": "index-cube counters that went through marginal differencing are tested against 0 exactly only when integral or after adjust_zeros(new=0): the array cube's directly filled counters then give the same missing cells",
     "R-C03-e": "strided_dims multiplies coordinates only after astype(mintype); mintype is chosen against the total product of extents",
 }
 
@@ -202,6 +203,9 @@ def main(tier):
     n2 = AT.rule_sibling_fill(prog, C)
     # R-C03-c: predicate tables agree (both sides are compared with the same required table)
     AT.rule_predicates(prog, C, AT.SHARED, rule="R-C03-c")
+    # the predicate tables only agree in effect if the index cube's differenced floating-point counters
+    # are snapped to zero before an exact test (the array cube fills every cell directly)
+    AT.rule_exact_tests(prog, C, rule="R-C03-f")
     for rule, status, where, cons, detail, wit in C.items:
         rep.add(rule, where, cons, status, detail, True, wit)
     for m in list(AT._cache.values()):
